@@ -23,11 +23,12 @@ from harness import types_gen as tg
 
 LEVEL = "model_checking"
 XSS = {"JAVA_TOOL_OPTIONS": "-Xss64m -XX:ParallelGCThreads=2 -Xms256m"}
-VARIANTS = ("arm", "msvc", "fitge", "nounionreset")
+VARIANTS = ("arm", "msvc", "fitge", "nounionreset", "firstmention")
 
 CFG = """SPECIFICATION Spec
 CONSTANTS MaxFields = %d
   PrintUpTo = %d
+  Hist = %s
   Variant = "%s"
 INVARIANT NotRejected
 INVARIANT SizeOK
@@ -39,8 +40,8 @@ CHECK_DEADLOCK FALSE
 """
 
 
-def cfg(maxf, printupto, variant="faithful", fold=False):
-    return CFG % (maxf, printupto, variant, "INVARIANT MachineIsFold" if fold else "")
+def cfg(maxf, printupto, variant="faithful", fold=False, hist=False):
+    return CFG % (maxf, printupto, "TRUE" if hist else "FALSE", variant, "INVARIANT MachineIsFold" if fold else "")
 
 
 def tuples(out, head):
@@ -74,14 +75,17 @@ def decls_from_tlc(out):
     for pk, letters in tuples(out, "ALPHABET"):
         alpha[pk] = tg.from_tla(letters)
     nodes = []
-    for kind, pack, idx in tuples(out, "DECL"):
+    for kind, pack, idx, hist in tuples(out, "DECL"):
         nodes.append({"kind": kind, "pack": pack, "fields": [alpha[pack][i - 1] for i in idx]})
+        if hist["form"] != "none":
+            nodes[-1]["hist"] = dict(hist)
     return alpha, nodes
 
 
 def describe(node):
     r = tg.render(node, "S")
-    return tg.c_text(r.decls)
+    pre = "".join("[earlier cdef(pack=%d): %s] " % (p, t) for p, t in r.pre)
+    return pre + tg.c_text(r.decls)
 
 
 def member_sig(node, k):
@@ -165,6 +169,8 @@ def judge(ctx, recs, verdicts):
         for clause, k in cffi_bad[:1]:
             key = "layout:%s:%s:pack=%d:%s" % (clause, rec["node"]["kind"], rec["node"]["pack"],
                                                member_sig(rec["node"], k))
+            if "hist" in rec["node"]:
+                key += ":first=%s/pack=%d" % (rec["node"]["hist"]["form"], rec["node"]["hist"]["pack"])
             ctx.violation(key, "%s: %s" % (CLAUSE.get(clause, clause), describe(rec["node"])),
                           {"node": rec["node"], "gcc": rec["gcc"], "cffi": rec["cffi"], "clause": clause, "member": k})
         if not cffi_bad:
@@ -181,8 +187,9 @@ def run_variants(ctx):
     def one(v):
         if v == "lemma":
             return v, core.tlc("MC_LayoutLemma", workers=1, timeout=900, env=XSS)
-        return v, core.tlc("MC_Layout", cfg_text=cfg(2, 0, v), workers=2, timeout=900, env=XSS)
-    with concurrent.futures.ThreadPoolExecutor(max_workers=5) as ex:
+        return v, core.tlc("MC_Layout", cfg_text=cfg(1 if v == "firstmention" else 2, 0, v, hist=(v == "firstmention")),
+                           workers=2, timeout=900, env=XSS)
+    with concurrent.futures.ThreadPoolExecutor(max_workers=6) as ex:
         for v, r in ex.map(one, VARIANTS + ("lemma",)):
             if v == "lemma":
                 ctx.add_tlc("MC_LayoutLemma(BitStart = LeastFit)", r, count_states=False)
@@ -194,7 +201,7 @@ def run_variants(ctx):
 
 
 def stats(nodes):
-    s = {"aggregates": len(nodes), "with_bitfields": 0, "unions": 0, "packed": 0, "nested": 0, "flexible": 0}
+    s = {"aggregates": len(nodes), "with_history": sum(1 for n in nodes if "hist" in n), "with_bitfields": 0, "unions": 0, "packed": 0, "nested": 0, "flexible": 0}
     for n in nodes:
         s["with_bitfields"] += tg.has_bitfield(n)
         s["unions"] += n["kind"] == "union"
@@ -210,6 +217,9 @@ def random_nodes(ctx, n):
         depth = ctx.rng.choice([0, 1, 1, 2, 2, 3])
         opts = {"max_fields": ctx.rng.choice([3, 5, 9, 14])}
         rnd.append(tg.random_node(ctx.rng, depth, opts=opts))
+        if ctx.rng.random() < 0.3:          # declaration history: first mentioned in an earlier cdef()
+            rnd[-1]["hist"] = {"form": ctx.rng.choice(["fwd", "typedef", "ptr", "realized"]),
+                               "pack": ctx.rng.choice([0, 1, 2, 4])}
     # every separately declared nested aggregate is a declaration of its own, too
     extra, seen = [], set()
     for nd in rnd:
@@ -229,7 +239,7 @@ def run(ctx):
     quick = ctx.quick
     rnd = random_nodes(ctx, 300 if quick else 5000)
     # ---------------------------------------------------------------- design level
-    with concurrent.futures.ThreadPoolExecutor(max_workers=2) as ex:
+    with concurrent.futures.ThreadPoolExecutor(max_workers=3) as ex:
         fv = ex.submit(run_variants, ctx)
         frnd = ex.submit(measure, ctx, rnd, "r")             # code -> spec measurements meanwhile
         if quick:
@@ -242,7 +252,15 @@ def run(ctx):
             r2 = core.tlc("MC_Layout", cfg_text=cfg(2, 0, fold=True), workers=2, timeout=900, env=XSS)
             ctx.add_tlc("MC_Layout(<=2 members, machine = fold)", r2, count_states=False)
             bound = 3
+        # declaration histories: (first-mention packing, form) x definition packing x member sequences
+        hmax = 1 if quick else 2
+        fh = ex.submit(core.tlc, "MC_Layout", cfg_text=cfg(hmax, hmax, hist=True), workers=4, timeout=3000, env=XSS)
         alpha, decl_nodes = decls_from_tlc(r.out)
+        rh = fh.result()
+        ctx.add_tlc("MC_Layout(declaration histories: 4 forms x 4 first-mention packings, <=%d members)" % hmax, rh)
+        hist_nodes = [n for n in decls_from_tlc(rh.out)[1] if "hist" in n]
+        if len(hist_nodes) < 500:
+            raise core.MachineryError("MC_Layout printed only %d declarations with a history" % len(hist_nodes))
         if len(alpha) != 4 or len(decl_nodes) < 1000:
             raise core.MachineryError("MC_Layout printed %d alphabets / %d declarations" % (len(alpha), len(decl_nodes)))
         # ------------------------------------------------------------ spec -> code, code -> spec
@@ -252,6 +270,9 @@ def run(ctx):
             one = [n for n in decl_nodes if len(n["fields"]) <= 1]
             two = [n for n in decl_nodes if len(n["fields"]) > 1]
             decl_nodes = one + ctx.rng.sample(two, min(len(two), 1000))
+        all_decls += len(hist_nodes)
+        hist_nodes = ctx.rng.sample(hist_nodes, min(len(hist_nodes), 400 if quick else 4000))
+        decl_nodes = decl_nodes + hist_nodes
         recs = measure(ctx, decl_nodes, "d")
         rrecs = frnd.result()
         fv.result()
